@@ -48,6 +48,7 @@ type FuncContract struct {
 	Trusted  bool // contract assumed, body not verified (external / out of reach); listed in evidence
 	Pure     bool // no heap effects; callers keep their heap
 	Requires []*Clause
+	Rejects  []*Clause // inputs for which the function must not return normally (checked in a separate pass)
 	Relies   []*Clause // rely conditions on lock-guarded state, assumed after every lock acquisition
 	OvfWrap  bool      // int mode: signed arithmetic wraps (Go semantics) instead of raising an overflow obligation
 	Ensures  []*Clause
@@ -113,7 +114,7 @@ func splitTags(s string) []string {
 	return out
 }
 
-var keywords = map[string]bool{"func": true, "mode": true, "props": true, "inline": true, "requires": true, "relies": true, "ovfwrap": true, "let": true,
+var keywords = map[string]bool{"func": true, "mode": true, "props": true, "inline": true, "requires": true, "relies": true, "rejects": true, "ovfwrap": true, "let": true,
 	"assigns": true, "ensures": true, "loop": true, "spec": true, "end": true, "lemma": true, "fntype": true,
 	"guard": true, "guardcall": true, "shared": true, "role": true, "phase": true, "chan": true, "closer": true, "trusted": true, "safe": true, "shape": true, "note": true, "pure": true, "events": true, "freshresult": true, "maxpaths": true}
 
@@ -318,13 +319,15 @@ func ParseContracts(lines, poss []string) (*Contracts, error) {
 				}
 			case "ovfwrap":
 				cur.OvfWrap = true
-			case "requires", "ensures", "relies":
+			case "requires", "ensures", "relies", "rejects":
 				c := &Clause{Kind: first, Tags: tags, Raw: rest, Line: pos}
 				switch first {
 				case "requires":
 					cur.Requires = append(cur.Requires, c)
 				case "relies":
 					cur.Relies = append(cur.Relies, c)
+				case "rejects":
+					cur.Rejects = append(cur.Rejects, c)
 				default:
 					cur.Ensures = append(cur.Ensures, c)
 				}
@@ -430,6 +433,9 @@ func ParseContracts(lines, poss []string) (*Contracts, error) {
 			fix(c)
 		}
 		for _, c := range fc.Relies {
+			fix(c)
+		}
+		for _, c := range fc.Rejects {
 			fix(c)
 		}
 		for _, c := range fc.Ensures {
